@@ -205,7 +205,7 @@ CHECKS = {
               "projected to physical units and exact rationals and compared entry by entry with the specification by TLC "
               "(GaussTrace); the value is compared with ln N(y; b, B) of those certified matrices and with TheJoker's in-memory and "
               "cache-file entry points; finiteness on random valid inputs (e to 0.99, periods 0.5 d .. 1e4 d)."
-              ' Off the lattice the specification is carried by a floating-point transcription of Gauss.tla (harness/gauss_oracle.py, its own Kepler solver) that TLC certifies on every lattice configuration (monitor family H) and that is then the oracle for seeded random real-valued problems (2-27 epochs, e to 0.95, poly_trend 1..3, offsets, means, jitter, caps, random units; quick 60, thorough 1500; tolerance 1e-6 relative).'),
+              ' Off the lattice the specification is carried by a floating-point transcription of Gauss.tla (harness/gauss_oracle.py, its own Kepler solver) that TLC certifies on every lattice configuration (monitor family H) and that is then the oracle for seeded random real-valued problems (2-27 epochs, e to 0.99, poly_trend 1..3, offsets, means, jitter, caps, random units; quick 60, thorough 1500; tolerance 1e-6 relative).'),
         design_ref="DESIGN.md section 3 C01, 2.5",
         note=("Exhaustive on the lattice only (Keplerian phases 0 and pi, e in {0, 0.6, 0.8}, P in {2, 4} d); off the lattice agreement with "
               "the closed form is explored on seeded random problems inside the input classes no known finding touches, not decided for "
